@@ -83,6 +83,14 @@ func TestWorker(t *testing.T) {
 		t0 := time.Now()
 		res := runner.Run(t, p)
 		vs := oracle.Check(p, res)
+		if p.Property == "C09" && p.Family != "solo" {
+			sp, conn, sess := plan.SoloPlans(p)
+			var solos []*runner.Result
+			for _, q := range sp {
+				solos = append(solos, runner.Run(t, q))
+			}
+			vs = append(vs, oracle.CompareSolo(p, res, solos, conn, sess)...)
+		}
 		var mine []oracle.Violation
 		for _, v := range vs {
 			if v.Property == p.Property {
